@@ -3,6 +3,7 @@
 #include <algorithm>
 #include <cerrno>
 #include <csignal>
+#include <sys/time.h>
 #include <sys/wait.h>
 #include <unistd.h>
 
@@ -138,7 +139,13 @@ static Outcome run_forked(const Scenario &sc, bool with_log) {
 			FILE *dn = freopen("/dev/null", "w", stderr);
 			(void)dn;
 		}
-		alarm(20);
+		{
+			// CPU time, not wall-clock: a loaded machine must not turn into a false "hang"
+			struct itimerval it;
+			memset(&it, 0, sizeof it);
+			it.it_value.tv_sec = 20;
+			setitimer(ITIMER_VIRTUAL, &it, nullptr);
+		}
 		RunResult r = simulate(sc);
 		if (r.verdict.empty() == false && !r.known.empty()) { /* keep */ }
 		std::string s = result_to_json(r, with_log).str();
@@ -167,7 +174,7 @@ static Outcome run_forked(const Scenario &sc, bool with_log) {
 	} else {
 		o.ok = false;
 		char b[96];
-		if (WIFSIGNALED(st) && WTERMSIG(st) == SIGALRM) { o.verdict = "C18/I6 hang"; o.detail = "driver code spun for 20 s of CPU without making a system call"; }
+		if (WIFSIGNALED(st) && (WTERMSIG(st) == SIGALRM || WTERMSIG(st) == SIGVTALRM)) { o.verdict = "C18/I6 hang"; o.detail = "driver code spun for 20 s of CPU without making a system call"; }
 		else if (WIFSIGNALED(st)) { snprintf(b, sizeof b, "driver code died with signal %d", WTERMSIG(st)); o.verdict = "driver-crash signal"; o.detail = b; }
 		else { snprintf(b, sizeof b, "simulation child ended with wait status 0x%x", st); o.verdict = "driver-crash exit"; o.detail = b; }
 		o.hash = "crash";
